@@ -1,3 +1,4 @@
+import TplModel.Generated.Facts
 import TplModel.Sys.Conc
 import TplModel.Proofs.Conc
 /-! # C15 — concurrent rendering from one manager is race-free and equals serial (the LOGIC)
@@ -200,5 +201,9 @@ example : Race st0 [(0, .read 20), (1, .read 20), (0, .write 20 7), (1, .write 2
 /-- a mutex around the check-and-set (explicit `lock`/`unlock`) removes that race in the serialised schedule -/
 example : ¬ Race st0 [(0, .lock 1), (0, .read 20), (0, .write 20 7), (0, .unlock 1),
                        (1, .lock 1), (1, .read 20), (1, .unlock 1)] := by decide
+
+
+/-- tie to the code: the lazy caches of `Tag` sit next to a sync primitive in html/tag.go (re-extracted every run) -/
+theorem tag_caches_guarded : Facts.tagHasSyncField = true := by decide
 
 end C15
